@@ -217,6 +217,13 @@ func (r *ruleState) specOnResponse(req *ReqRec) {
 		r.specOnError(req)
 		return
 	}
+	if st := req.Status(); st == int(t_api.StatusFieldValidationError) || st == int(t_api.StatusCallbackInvalidPromise) {
+		for _, tr := range req.Txs {
+			if tr.Committed && tr.Wrote {
+				s.violate("T15.rejected_left_trace", P("C13", "C03"), req.Req.Kind.String(), fmt.Sprintf("status=%d", st), fmt.Sprintf("%s was refused as invalid but committed a write", req.Tag))
+			}
+		}
+	}
 	cands := r.candidates(req)
 	taus := r.taus(req)
 	if len(taus) == 0 {
